@@ -13,7 +13,8 @@
 //!           "rest":n,                   if > 0: also the next n atomic steps of the history itself (starting at
 //!                                       its next input) as a continuation
 //!           "tail":t,                   silent ticks appended to every continuation
-//!           "block":bool}               also one whole-history pair: ticking stepper vs blocking stepper
+//!           "block":bool,               also whole-history pairs: ticking stepper vs blocking stepper
+//!           "long_gap":n}               (block) the guarded blocking stepper does not sleep through more than n ticks
 //!
 //! For every cut point where the REAL decision `can_block_update_idle_waiting` returned true (the loop would
 //! block on the channel), every continuation c and every K:
@@ -21,7 +22,8 @@
 //!     lane B = prefix ;            c ; tail      (the loop blocked: no tick is executed until the next input)
 //! each lane on a fresh Kanata.  One output line per pair:
 //!   {"e":"pair","job":tag,"case":i,"cut":atomic step index,"K":K,"cont":j|"rest","mode":"gap",
-//!    "down":[codes the OS sees pressed at the cut],"gap":[rec..],"A":[rec..],"B":[rec..]}
+//!    "down":[codes the OS sees pressed at the cut],"gap":[rec..],"A":[rec..],"B":[rec..],
+//!    "pre":{"osp":oneshot.pause_input_processing_ticks,"ost":oneshot.timeout,"nosk":oneshot.keys.len()} at the cut}
 //! rec = {"e":"t","n":k,"out":[[kind,arg]..],"idle":b,"cb":b} (silent ticks run-length compressed, n>1 only if out=[])
 //!     | {"e":"d"|"u"|"r"|"p"|"w","c":code,"out":[..]} | {"e":"fk","y":y,"op":op,"out":[]}
 //!     | {"e":"skip","n":k} (ticks not executed by the blocking stepper) | {"e":"panic","loc":..,"msg":..}
@@ -29,6 +31,9 @@
 //! Output arguments are always strings so that TLC compares homogeneous values.
 //! "block" pair (mode "block"): A = the whole history with every tick executed, B = the same history where the
 //! ticks following a tick with can_block = true are skipped until the next input (what the processing loop does).
+//! A second pair (mode "blockg") is written when the guarded blocking stepper decided differently: it does not block
+//! in the states of the recorded findings of C07 ("guards": how often each guard changed a decision); it is used
+//! only to attribute a rejected "block" pair to those findings.
 //! Nothing is judged here: spec/P_C07.tla (TLC) decides.
 use crate::keys::KeyNames;
 use crate::sim::Sim;
@@ -182,15 +187,16 @@ struct Scan {
     flags: Vec<Option<(bool, bool)>>,
     /// OS keys down after every atomic step
     down: Vec<Vec<String>>,
-    /// layout.oneshot.pause_input_processing_ticks (the rapid-event pause) after every atomic step
-    osp: Vec<u16>,
+    /// the fields by which the recorded findings of C07 are recognised, after every atomic step
+    pre: Vec<Pre>,
     /// the scan ended early (panic / error of the code under test) after this many steps
     done: usize,
     problem: Option<Value>,
 }
 
 fn scan(names: &KeyNames, cfg: &str, files: &[(String, String)], hist: &[Step]) -> Scan {
-    let mut sc = Scan { flags: vec![], down: vec![], osp: vec![], done: 0, problem: None };
+    let has_overrides = cfg.contains("defoverrides");
+    let mut sc = Scan { flags: vec![], down: vec![], pre: vec![], done: 0, problem: None };
     let r = std::panic::catch_unwind(std::panic::AssertUnwindSafe(|| -> Result<(), String> {
         let mut sim = Sim::new(cfg, files)?;
         let mut down: Vec<String> = vec![];
@@ -217,7 +223,8 @@ fn scan(names: &KeyNames, cfg: &str, files: &[(String, String)], hist: &[Step]) 
             lane.recs.clear();
             sc.flags.push(fl);
             sc.down.push(down.clone());
-            sc.osp.push(sim.k.layout.b().oneshot.pause_input_processing_ticks);
+            let prev_cv2a = sc.pre.last().map(|p| p.cv2a).unwrap_or(true);
+            sc.pre.push(pre_of(&sim, prev_cv2a, has_overrides));
             sc.done += 1;
         }
         Ok(())
@@ -231,6 +238,69 @@ fn scan(names: &KeyNames, cfg: &str, files: &[(String, String)], hist: &[Step]) 
         }
     }
     sc
+}
+
+/// Public state by which a may-block decision point is matched with a recorded finding of C07.
+#[derive(Clone, Copy, Debug, Default)]
+struct Pre {
+    /// oneshot.pause_input_processing_ticks (the rapid-event pause)
+    osp: u16,
+    /// oneshot.timeout / oneshot.keys.len()
+    ost: u16,
+    nosk: usize,
+    /// the key set the next tick will compute differs from prev_keys (a release / press is still to be written);
+    /// not evaluated when the configuration has defoverrides (prev_keys then holds the overridden keys)
+    kdiff: bool,
+    /// chords v2 accepts chords (ticks_to_ignore_chord == 0)
+    cv2a: bool,
+    /// ... and did not after the previous step: the first tick after the chords-v2-min-idle window
+    cv2edge: bool,
+    /// a dynamic macro is being recorded
+    drec: bool,
+}
+
+fn pre_of(sim: &Sim, prev_cv2a: bool, has_overrides: bool) -> Pre {
+    let l = sim.k.layout.b();
+    let mut cur: Vec<u16> = l.keycodes().map(|k| k as u16).collect();
+    let mut prev: Vec<u16> = sim.k.prev_keys.iter().map(|k| *k as u16).collect();
+    cur.sort();
+    cur.dedup();
+    prev.sort();
+    prev.dedup();
+    let cv2a = l.chords_v2.as_ref().map(|c| c.accepts_chords_chv2()).unwrap_or(true);
+    Pre {
+        osp: l.oneshot.pause_input_processing_ticks,
+        ost: l.oneshot.timeout,
+        nosk: l.oneshot.keys.len(),
+        kdiff: !has_overrides && sim.k.caps_word.is_none() && cur != prev,
+        cv2a,
+        cv2edge: l.chords_v2.is_some() && cv2a && !prev_cv2a,
+        drec: sim.k.dynamic_macro_record_state.is_some(),
+    }
+}
+
+fn pre_json(p: &Pre) -> Value {
+    json!({"osp": p.osp, "ost": p.ost, "nosk": p.nosk, "kdiff": p.kdiff, "cv2edge": p.cv2edge, "drec": p.drec})
+}
+
+const GUARDS: [&str; 6] = ["pause", "os0", "kdiff", "cv2", "drec", "long"];
+/// Which recorded finding (index into GUARDS) covers this may-block decision, if any.
+fn guard_of(p: &Pre, ahead: usize, long_gap: usize) -> Option<usize> {
+    if p.osp > 0 {
+        Some(0)
+    } else if p.ost == 0 && p.nosk > 0 {
+        Some(1)
+    } else if p.kdiff {
+        Some(2)
+    } else if p.cv2edge {
+        Some(3)
+    } else if p.drec {
+        Some(4)
+    } else if ahead > long_gap {
+        Some(5)
+    } else {
+        None
+    }
 }
 
 fn is_input(s: &Step) -> bool {
@@ -343,7 +413,7 @@ fn cmd_paired_inner(args: &[String]) -> Result<(), String> {
                     for &k in &ks {
                         let (gap, lane_a) = run(k);
                         writeln!(w, "{}", json!({"e":"pair","job":tag,"case":ci,"cut":cut,"K":k,"cont":cname,"mode":"gap",
-                            "down":sc.down[cut - 1],"osp":sc.osp[cut - 1],"gap":gap,"A":lane_a,"B":lane_b})).map_err(|e| e.to_string())?;
+                            "down":sc.down[cut - 1],"pre":pre_json(&sc.pre[cut - 1]),"gap":gap,"A":lane_a,"B":lane_b})).map_err(|e| e.to_string())?;
                     }
                 }
             }
@@ -356,26 +426,71 @@ fn cmd_paired_inner(args: &[String]) -> Result<(), String> {
                     }
                     Ok(())
                 });
-                let mut lb = Lane::new();
-                guarded(&mut lb, &mut |lane: &mut Lane| {
-                    let mut sim = Sim::new(&cfg, &files)?;
-                    let mut blocked = false;
-                    for st in &hist {
-                        match st {
-                            Step::Tick if blocked => lane.skip(),
-                            _ => {
-                                if let Some((_, cb)) = apply(&mut sim, &names, st, Some(lane))? {
-                                    blocked = cb;
-                                } else {
-                                    blocked = false;
+                // B = the blocking stepper.  guard = false: blocks wherever the real decision says so.
+                // guard = true: does not block where one of the recorded findings of C07 applies (rapid-event pause
+                // pending; one-shot end pending with timeout 0; a blocked stretch longer than `long_gap` ticks);
+                // `fired` counts the decisions changed by each guard.
+                let long_gap = c["long_gap"].as_u64().unwrap_or(9000) as usize;
+                let has_overrides = cfg.contains("defoverrides");
+                let run_block = |guard: bool, fired: &mut [u64; 6]| -> Vec<Value> {
+                    let mut lb = Lane::new();
+                    guarded(&mut lb, &mut |lane: &mut Lane| {
+                        let mut sim = Sim::new(&cfg, &files)?;
+                        let mut blocked = false;
+                        let mut prev_cv2a = true;
+                        // the "long" guard keeps the stepper ticking through the whole stretch
+                        let mut awake_until_input = false;
+                        for (i, st) in hist.iter().enumerate() {
+                            if is_input(st) {
+                                awake_until_input = false;
+                            }
+                            match st {
+                                Step::Tick if blocked => lane.skip(),
+                                _ => {
+                                    let r = apply(&mut sim, &names, st, Some(lane))?;
+                                    let p = pre_of(&sim, prev_cv2a, has_overrides);
+                                    prev_cv2a = p.cv2a;
+                                    if let Some((_, cb)) = r {
+                                        blocked = cb;
+                                        if cb && guard && awake_until_input {
+                                            blocked = false;
+                                        } else if cb && guard {
+                                            let mut ahead = 0usize;
+                                            while i + 1 + ahead < hist.len() && !is_input(&hist[i + 1 + ahead]) {
+                                                ahead += 1;
+                                            }
+                                            if let Some(g) = guard_of(&p, ahead, long_gap) {
+                                                fired[g] += 1;
+                                                blocked = false;
+                                                awake_until_input = g == 5;
+                                            }
+                                        }
+                                    } else {
+                                        blocked = false;
+                                    }
                                 }
                             }
                         }
-                    }
-                    Ok(())
-                });
+                        Ok(())
+                    });
+                    lb.take()
+                };
+                let mut none = [0u64; 6];
+                let lane_b = run_block(false, &mut none);
+                let mut fired = [0u64; 6];
+                let lane_g = run_block(true, &mut fired);
+                let lane_a = la.take();
+                let mut guards = serde_json::Map::new();
+                for (i, g) in GUARDS.iter().enumerate() {
+                    guards.insert(g.to_string(), json!(fired[i]));
+                }
+                let guards = Value::Object(guards);
                 writeln!(w, "{}", json!({"e":"pair","job":tag,"case":ci,"cut":0,"K":0,"cont":"all","mode":"block",
-                    "down":[],"osp":0,"gap":[],"A":la.take(),"B":lb.take()})).map_err(|e| e.to_string())?;
+                    "down":[],"pre":pre_json(&Pre::default()),"guards":guards,"gap":[],"A":lane_a,"B":lane_b})).map_err(|e| e.to_string())?;
+                if fired.iter().any(|x| *x > 0) {
+                    writeln!(w, "{}", json!({"e":"pair","job":tag,"case":ci,"cut":0,"K":0,"cont":"all","mode":"blockg",
+                        "down":[],"pre":pre_json(&Pre::default()),"guards":guards,"gap":[],"A":lane_a,"B":lane_g})).map_err(|e| e.to_string())?;
+                }
             }
         }
     }
